@@ -66,6 +66,16 @@ def qarg(a):
 
 def evaluate(bc, spec, q):
     args = [qarg(a) for a in q["args"]]
+    if q.get("layout") == "fortran2d":
+        # the same points as two-dimensional arrays that are not C-contiguous (transposed views);
+        # the result is flattened back into the order of the argument lists
+        args = [a.reshape(2, -1).T if isinstance(a, np.ndarray) else a for a in args]
+        v = _evaluate(bc, spec, q, args)
+        return np.ascontiguousarray(np.asarray(v).T).ravel() if isinstance(v, np.ndarray) and v.ndim == 2 else v
+    return _evaluate(bc, spec, q, args)
+
+
+def _evaluate(bc, spec, q, args):
     k = spec["kind"]
     fn = q.get("fn")
     if k == "flux":
